@@ -526,12 +526,12 @@ M('C02', 'magnitude_bins fills a missing start by truthiness', 'C02-D5.magbins',
 E('C02', 'magnitude_bins fills a missing start after a None test',
   (REG, _MB_OLD, 'def magnitude_bins(start_magnitude=None, end_magnitude=None, dmw=None):'),
   (REG, '    return cleaner_range(start_magnitude, end_magnitude, dmw)', '    if start_magnitude is None:\n        start_magnitude = 2.5\n    return cleaner_range(start_magnitude, end_magnitude, dmw)'))
-_RS_OLD = '                mag_bins = CSEP_MW_BINS\n                self.region.magnitudes = mag_bins\n                self.region.num_mag_bins = len(mag_bins)\n'
+_RS_OLD = '                # the region carries no magnitude bins: use default magnitude bins from csep\n                mag_bins = CSEP_MW_BINS\n                self.region.magnitudes = mag_bins\n                self.region.num_mag_bins = len(mag_bins)\n'
 for _p in ('C02', 'C03'):
     M(_p, 'explicit magnitude bins written into the shared region', 'C03-D6.local',
-      (CAT, _RS_OLD, '                mag_bins = CSEP_MW_BINS\n        if self.region is not None:\n            self.region.magnitudes = mag_bins\n            self.region.num_mag_bins = len(mag_bins)\n'))
+      (CAT, _RS_OLD, '                # the region carries no magnitude bins: use default magnitude bins from csep\n                mag_bins = CSEP_MW_BINS\n        if self.region is not None:\n            self.region.magnitudes = mag_bins\n            self.region.num_mag_bins = len(mag_bins)\n'))
 E('C03', 'default bins bound to the region in a nested None branch',
-  (CAT, _RS_OLD, '                mag_bins = CSEP_MW_BINS\n                if self.region is not None:\n                    self.region.magnitudes = mag_bins\n                    self.region.num_mag_bins = len(mag_bins)\n'))
+  (CAT, _RS_OLD, '                # the region carries no magnitude bins: use default magnitude bins from csep\n                mag_bins = CSEP_MW_BINS\n                if self.region is not None:\n                    self.region.magnitudes = mag_bins\n                    self.region.num_mag_bins = len(mag_bins)\n'))
 M('C03', 'located points remembered on the quadtree class', 'C03-D6.lookup',
   (REG, "    def _find_location(self, lon, lat):", "    _seen = {}\n\n    def _find_location(self, lon, lat):"),
   (REG, "        loc = numpy.logical_and(numpy.logical_and(lon >= self.bounds[:, 0], lat >= self.bounds[:, 1]),", "        if (lon, lat) in self._seen:\n            return self._seen[(lon, lat)]\n        self._seen[(lon, lat)] = numpy.array([], dtype=int)\n        loc = numpy.logical_and(numpy.logical_and(lon >= self.bounds[:, 0], lat >= self.bounds[:, 1]),"))
@@ -573,3 +573,68 @@ for _p in ('C05', 'C06', 'C13', 'C16'):
 M('C16', 'space-magnitude counts accumulated without the magnitude guard', 'C03-D1',
   (CAT, '                if mag_idx[idx] == -1:\n                    raise ValueError("at least one magnitude value outside of the valid region.")\n', ''))
 M('C05', 'space-magnitude counts remembered on the catalog', 'C03-D6.pure', (CAT, '                event_counts[(spatial_idx[idx], mag_idx[idx])] += 1\n        return event_counts', '                event_counts[(spatial_idx[idx], mag_idx[idx])] += 1\n        self._last_counts = event_counts\n        return event_counts'))
+
+# ------------------------------------------------------------------------------------------------ round 6 rules
+for _p in ('C01', 'C04'):
+    M(_p, 'given region ignored when it compares equal to the bound one', 'C01-D2.given',
+      (CAT, '        # update the region to the new region\n        if region is not None:\n            self.region = region\n',
+       '        # update the region to the new region\n        if region is not None and (self.region is None or region != self.region):\n            self.region = region\n'))
+E('C01', 'given region bound in a nested test',
+  (CAT, '        # update the region to the new region\n        if region is not None:\n            self.region = region\n',
+   '        # update the region to the new region\n        if not (region is None):\n            self.region = region\n'))
+M('C02', 'integer grid built with an integer dtype', 'C02-D5.form', (CALC, 'return numpy.arange(start, end + d / 2, d) / scale', 'return numpy.arange(start, end + d / 2, d, dtype=int) / scale'))
+E('C02', 'integer grid built with an explicit float dtype', (CALC, 'return numpy.arange(start, end + d / 2, d) / scale', 'return numpy.arange(start, end + d / 2, d, dtype=numpy.float64) / scale'))
+for _p in ('C02', 'C03', 'C05'):
+    M(_p, 'magnitudes converted to double before binning', 'C02-D4.asstored',
+      (CAT, '        idx = bin1d_vec(self.get_magnitudes(), mag_bins, tol=tol, right_continuous=True)\n        # events below', '        idx = bin1d_vec(self.get_magnitudes().astype(float), mag_bins, tol=tol, right_continuous=True)\n        # events below'))
+M('C03', 'magnitude index handed back as a masked array and tested with == -1', 'C03-D1',
+  (CAT, '        return bin1d_vec(self.get_magnitudes(), mag_bins, right_continuous=True)\n', '        return numpy.ma.masked_less(bin1d_vec(self.get_magnitudes(), mag_bins, right_continuous=True), 0)\n'),
+  (CAT, '            mag_idx = bin1d_vec(self.get_magnitudes(), mag_bins, tol=tol, right_continuous=True)\n', '            mag_idx = self.get_mag_idx()\n'),
+  (CAT, '            for idx in range(spatial_idx.shape[0]):\n                if mag_idx[idx] == -1:\n                    raise ValueError("at least one magnitude value outside of the valid region.")\n                event_counts[(spatial_idx[idx], mag_idx[idx])] += 1\n',
+   '            if numpy.any(mag_idx == -1):\n                raise ValueError("at least one magnitude value outside of the valid region.")\n            numpy.add.at(event_counts, (spatial_idx, mag_idx), 1)\n'))
+for _p in ('C09', 'C07'):
+    M(_p, 'last ecdf remembered at module level', 'C09-D1.stateless',
+      (STA, '    xs = numpy.sort(x)\n    ys = numpy.arange(1, len(x) + 1) / float(len(x))\n    return xs, ys\n',
+       '    global _LAST\n    if _LAST is not None and _LAST[0] is x:\n        return _LAST[1]\n    xs = numpy.sort(x)\n    ys = numpy.arange(1, len(x) + 1) / float(len(x))\n    _LAST = (x, (xs, ys))\n    return xs, ys\n'),
+      (STA, 'def ecdf(x):', '_LAST = None\n\n\ndef ecdf(x):'))
+for _p in ('C15', 'C12'):
+    M(_p, 'string to epoch through a second parser', 'C15-D3.compose',
+      (TIM, '    dt = strptime_to_utc_datetime(time_string, format)\n    return datetime_to_utc_epoch(dt)\n',
+       "    if len(time_string) == 19:\n        return datetime_to_utc_epoch(datetime.datetime(int(time_string[0:4]), int(time_string[5:7]), int(time_string[8:10]), int(time_string[11:13]), int(time_string[14:16]), int(time_string[17:19])))\n    dt = strptime_to_utc_datetime(time_string, format)\n    return datetime_to_utc_epoch(dt)\n"))
+E('C15', 'string to epoch composed on two returns',
+  (TIM, '    dt = strptime_to_utc_datetime(time_string, format)\n    return datetime_to_utc_epoch(dt)\n',
+   "    if format is None:\n        return datetime_to_utc_epoch(strptime_to_utc_datetime(time_string, parse_string_format(time_string)))\n    dt = strptime_to_utc_datetime(time_string, format)\n    return datetime_to_utc_epoch(dt)\n"))
+for _p in ('C04', 'C13'):
+    M(_p, 'filter trusts remembered statements', 'C04-D7.select',
+      (CAT, "        if isinstance(statements, str):\n            name = statements.split(' ')[0]", "        if statements == self.filters and self.filters:\n            filtered = self.catalog\n        elif isinstance(statements, str):\n            name = statements.split(' ')[0]"))
+M('C13', 'magnitude test zips the forecast with its recorded counts', 'C13-D9.complete',
+  (CEV, '    t0 = time.time()\n    for i, catalog in enumerate(forecast):\n        mag_counts = catalog.magnitude_counts()', '    t0 = time.time()\n    for i, (cnt, catalog) in enumerate(zip(forecast.get_event_counts(), forecast)):\n        mag_counts = catalog.magnitude_counts()'))
+E('C13', 'magnitude test zips the forecast with a counter', (CEV, '    t0 = time.time()\n    for i, catalog in enumerate(forecast):\n        mag_counts = catalog.magnitude_counts()', '    t0 = time.time()\n    import itertools\n    for catalog, i in zip(forecast, itertools.count()):\n        mag_counts = catalog.magnitude_counts()'))
+M('C13', 'expected rates no longer refuse a forecast without magnitude bins up front', 'C13-D7.precheck',
+  (FOR, '        if self.region is None or self.region.magnitudes is None:\n            raise AttributeError("Forecast must have space-magnitude regions to compute expected rates.")\n', ''))
+M('C14', 'empty catalog returns before the scratch file is moved into place', 'C14-D1.target',
+  (CAT, "        with open(filename, write_string, newline='') as outfile:", "        target = filename if append else filename + '.part'\n        with open(target, write_string, newline='') as outfile:"),
+  (CAT, "                writer.writerow(adict)\n", "                writer.writerow(adict)\n        if target != filename:\n            os.replace(target, filename)\n"))
+M('C16', 'binary kernel flattens in memory order', 'C05-D4.order', (BIN, '    rates = numpy.asarray(forecast, dtype=float).ravel()', "    rates = numpy.asarray(forecast, dtype=float).ravel(order='A')"))
+M('C17', 'bounding box from the cell origins when they exist', 'C17-D4.bbox',
+  (REG, '        return (min(self.bounds[:, 0]), max(self.bounds[:, 2]), min(self.bounds[:, 1]), max(self.bounds[:, 3]))', "        if hasattr(self, 'xs'):\n            return (self.xs.min(), self.xs.max(), self.ys.min(), self.ys.max())\n        return (min(self.bounds[:, 0]), max(self.bounds[:, 2]), min(self.bounds[:, 1]), max(self.bounds[:, 3]))"))
+for _p in ('C17', 'C20'):
+    M(_p, 'lower tile edges compared with a padded coordinate', 'C17-D1',
+      (REG, 'loc = numpy.logical_and(numpy.logical_and(lon >= self.bounds[:, 0], lat >= self.bounds[:, 1]),', 'loc = numpy.logical_and(numpy.logical_and(lon + 1e-12 >= self.bounds[:, 0], lat + 1e-12 >= self.bounds[:, 1]),'))
+M('C19', 'csep header recognised by a non-numeric first field', 'C19-D2.header',
+  (RDR, "        # ascii file has csv header with column names as text\n        if line[0] == 'lon':\n            return True\n        else:\n            return False", "        # ascii file has csv header with column names as text\n        return not line[0].replace('.', '', 1).lstrip('-').isdigit()"))
+E('C19', 'csep header recognised case-insensitively',
+  (RDR, "        # ascii file has csv header with column names as text\n        if line[0] == 'lon':\n            return True\n        else:\n            return False", "        # ascii file has csv header with column names as text\n        return line[0].strip().lower() in ('lon', 'longitude')"))
+M('C20', 'benchmark rates looked up with the first forecast\'s bin indices', 'C11-D3',
+  (FOR, '        idx = self.get_index_of(lons, lats)\n', '        idx = self.get_index_of(lons, lats) if getattr(self, "_shared_idx", None) is None else self._shared_idx\n'))
+M('C12', 'iterator rewinds the cursor itself', 'C13-D1', (FOR, '    def __iter__(self):\n        return self', '    def __iter__(self):\n        self._idx = 0\n        return self'))
+
+# ------------------------------------------------------------------------------------------------ the three repairs of round 6, undone
+M('C03', 'fallback to the default bins only for a missing attribute', 'C03-D7.nobins',
+  (CAT, "            except AttributeError:\n                mag_bins = None\n            if mag_bins is None:\n                # the region carries no magnitude bins: use default magnitude bins from csep\n",
+   "            except AttributeError:\n                # the region carries no magnitude bins: use default magnitude bins from csep\n"))
+M('C03', 'quadtree grid without a magnitudes attribute', 'C03-D7.regionattrs', (REG, "        # magnitude bins are bound by the from_* constructors (or later); a grid without them has none, like CartesianGrid2D\n        self.magnitudes = None\n", ''))
+E('C03', 'quadtree magnitudes default in the class body', (REG, "        # magnitude bins are bound by the from_* constructors (or later); a grid without them has none, like CartesianGrid2D\n        self.magnitudes = None\n", ''),
+  (REG, "    def __init__(self, polygons, quadkeys, bounds, name='QuadtreeGrid2d', mask=None):", "    magnitudes = None\n\n    def __init__(self, polygons, quadkeys, bounds, name='QuadtreeGrid2d', mask=None):"))
+M('C19', 'HORUS magnitudes read in single precision', 'C19-D3.width', (RDR, "           'Mw': (9, \"<f8\")}", "           'Mw': (9, \"<f4\")}"))
+E('C19', 'HORUS value columns typed float64 by name', (RDR, "           'Mw': (9, \"<f8\")}", "           'Mw': (9, \"float64\")}"))
